@@ -207,6 +207,7 @@ type didEnv struct {
 	R1, R2 *world.Account
 	Keys   []tmsecp.PrivKey // k1,k2,k3
 	DIDs   []string         // d1,d2
+	Prefix [2]string        // dp (43-character id) and dp+"m": a valid DID that is a byte-prefix of another valid DID
 }
 
 func newDidEnv() *didEnv {
@@ -217,6 +218,7 @@ func newDidEnv() *didEnv {
 	for i := 0; i < 2; i++ {
 		e.DIDs = append(e.DIDs, didtypes.NewDID(e.Keys[i].PubKey().Bytes()))
 	}
+	e.Prefix = [2]string{"did:panacea:" + strings.Repeat("7", 43), "did:panacea:" + strings.Repeat("7", 43) + "m"}
 	return e
 }
 
@@ -310,8 +312,9 @@ func bulkDIDs(e *didEnv, n int) map[string]*didtypes.DIDDocumentWithSeq {
 }
 
 type didVariant struct {
-	Bulk     int // genesis-injected filler DIDs
-	Tombs    int // every Tombs-th filler DID (in store order) is a tombstone
+	Bulk     int  // genesis-injected filler DIDs
+	Tombs    int  // every Tombs-th filler DID (in store order) is a tombstone
+	Prefix   bool // alphabet also has two DIDs one of which is a byte-prefix of the other
 	ID       string
 	Replays  bool // C04: Replay(i) ops
 	EmptyID  bool // C04/C05: create with an empty-id document
@@ -326,6 +329,12 @@ func (e *didEnv) short(did string) string {
 		if d == did {
 			return fmt.Sprintf("d%d", i+1)
 		}
+	}
+	switch did {
+	case e.Prefix[0]:
+		return "dp"
+	case e.Prefix[1]:
+		return "dp+m"
 	}
 	return "d?"
 }
@@ -425,6 +434,33 @@ func didOps(e *didEnv, v didVariant) []explore.Op {
 			return tx(R2, &didtypes.MsgUpdateDIDRequest{Did: d1, Document: doc, VerificationMethodId: e.vmID(d2, 1), Signature: e.sign(doc, seqOf(m, d2), 1), FromAddress: R2.Bech})
 		}},
 	)
+	// a valid 64-byte signature followed by one more byte (the 65-byte [R||S||V] form some wallets emit) is not a valid proof;
+	// and an update for d1 whose document id is a letter-case variant of d1 (a different DID) is not an update of d1
+	pad := func(sig []byte) []byte { return append(append([]byte{}, sig...), 0x01) }
+	ops = append(ops,
+		explore.Op{Name: "Deactivate(d1,k1,signature+1byte,via=R1)", Tx: func(w *world.World, m any) *world.TxSpec {
+			return tx(R1, &didtypes.MsgDeactivateDIDRequest{Did: d1, VerificationMethodId: e.vmID(d1, 1), Signature: pad(e.sign(&didtypes.DIDDocument{Id: d1}, seqOf(m, d1), 1)), FromAddress: R1.Bech})
+		}},
+		explore.Op{Name: "Update(d1,D2(d1),k1,signature+1byte,via=R1)", Tx: func(w *world.World, m any) *world.TxSpec {
+			doc := e.doc("D2", d1)
+			return tx(R1, &didtypes.MsgUpdateDIDRequest{Did: d1, Document: doc, VerificationMethodId: e.vmID(d1, 1), Signature: pad(e.sign(doc, seqOf(m, d1), 1)), FromAddress: R1.Bech})
+		}},
+		explore.Op{Name: "Update(d1,D1(caseVariant(d1)),k1,via=R2)", Tx: func(w *world.World, m any) *world.TxSpec {
+			doc := e.doc("D1", caseVariant(d1))
+			return tx(R2, &didtypes.MsgUpdateDIDRequest{Did: d1, Document: doc, VerificationMethodId: e.vmID(d1, 1), Signature: e.sign(doc, seqOf(m, d1), 1), FromAddress: R2.Bech})
+		}},
+	)
+	if v.Prefix {
+		// two valid DIDs one of which is a strict byte-prefix of the other (ids of 43 and 44 characters)
+		dp, dpm := e.Prefix[0], e.Prefix[1]
+		ops = append(ops,
+			create(dp, dp, "D1", 1, 0, R1),
+			create(dpm, dpm, "D1", 2, 0, R2),
+			update(dp, dp, "D5", "D5", 1, 0, R1),
+			update(dpm, dpm, "D2", "D2", 2, 0, R2),
+			deact(dp, 1, 0, R1),
+		)
+	}
 	// proofs that NAME a listed authentication key but are made with another key (or are junk): must never be accepted,
 	// whatever the type of the named key
 	ops = append(ops,
@@ -773,6 +809,7 @@ func didCheckState(s *explore.State, m *didModel, env *didEnv) {
 	}
 	// read operation
 	dids := append([]string{}, env.DIDs...)
+	dids = append(dids, env.Prefix[0], env.Prefix[1])
 	for _, did := range dids {
 		res, err := s.W.App.DidKeeper.DID(ctx, &didtypes.QueryDIDRequest{DidBase64: base64.StdEncoding.EncodeToString([]byte(did))})
 		e, ok := m.Entries[did]
@@ -863,7 +900,7 @@ func C05(t Tier) int {
 
 func C11(t Tier) int {
 	run := report.NewRun("C11", t.Name, "model_checking", "E1+E2")
-	sys := didSystem(didVariant{ID: "C11", Mismatch: true, EmptyID: true, StrictID: true, Small: true, Ctl: []string{"NB", "XI"}})
+	sys := didSystem(didVariant{ID: "C11", Mismatch: true, EmptyID: true, StrictID: true, Small: true, Prefix: true, Ctl: []string{"NB", "XI"}})
 	dl := deadline(t, 150*time.Second, 15*time.Minute)
 	bounds := []explore.Bounds{{Depth: 4, V: 1, Deadline: dl}, {Depth: 5, V: 1, Deadline: dl}}
 	if t.Thorough {
